@@ -214,12 +214,17 @@ def fmt_dtval(v):
 def parse_dtval(params, value):
     if "VALUE=DATE" in params:
         return ["date", PR.dn(datetime.strptime(value, "%Y%m%d").date())]
-    m = re.search(r"TZID=([^;:]+)", params)
+    m = re.search(r'TZID=("[^"]*"|[^;:]+)', params)
     if value.endswith("Z"):
         return ["utc", naive_to_wall(datetime.strptime(value, "%Y%m%dT%H%M%SZ"))]
     w = naive_to_wall(datetime.strptime(value, "%Y%m%dT%H%M%S"))
     if m:
-        return ["tz", m.group(1).strip('"'), w]
+        name = m.group(1).strip('"')
+        fx = re.fullmatch(r"UTC([+-])(\d\d):(\d\d)(?::(\d\d))?", name)
+        if fx:      # how a fixed-offset tzinfo prints: not a zone any reader knows
+            off = int(fx.group(2)) * 3600 + int(fx.group(3)) * 60 + int(fx.group(4) or 0)
+            return ["tz", ["fixed", -off if fx.group(1) == "-" else off], w]
+        return ["tz", name, w]
     return ["float", w]
 
 
@@ -618,6 +623,10 @@ def rr_starts(rr, a, b):
 
 def windows_after(rng, r, first_ts, k=2):
     per = PERIOD_S[r["freq"]] * r["interval"]
+    if r["freq"] == "weekly" and r.get("setpos"):
+        # dateutil numbers the set positions of the week holding DTSTART among the days from DTSTART
+        # on (the week is truncated) unless DTSTART is a Monday; the comparison starts after it
+        first_ts += 8 * DAY
     out = []
     for _ in range(k):
         n = rng.choice([0, 0, 1, 3, rng.randrange(0, 60), rng.randrange(0, 400)])
@@ -801,23 +810,22 @@ def gen_file_pattern(rng, exotic):
         r["extras"] = gen_extras(rng, r["freq"])
     if exotic and r["anchor"] is not None and not r["meta"]["allday"]:
         j = rng.random()
-        if j < 0.35:        # KF-FIXEDTZ
+        if j < 0.5:         # KF-FIXEDTZ
             r["fixed"] = rng.choice([7200, -18000, 19800, 0])
             if r["fixed"] == 0:
                 r["fixed"] = 3600
             r["as_int"] = False
-        elif j < 0.7:       # KF-EARLYANCHOR
-            d0 = rng.choice([date(1969, 6, 2), date(1970, 1, 1), date(1965, 3, 1), date(1970, 1, 2)])
-            if r["days"]:
-                wds = {e[0] for e in r["days"]}
-                while d0.weekday() not in wds:
-                    d0 -= timedelta(days=1)
-            r["anchor"][:3] = [d0.year, d0.month, d0.day]
-            r["as_int"] = False
-            if PR.anchor_ts(r) > DAY:
-                r["anchor"][:3] = [1969, 12, 31] if not r["days"] else r["anchor"][:3]
-        elif j < 1.0 and r["cls"] == "ical":       # KF-ALLDAYPAT: flagged all-day, not expressible as DATE
+        elif r["cls"] == "ical":       # KF-ALLDAYPAT: flagged all-day, not expressible as DATE
             r["meta"]["allday"] = True
+    elif r["anchor"] is not None and rng.random() < 0.04:
+        # anchors before 1970-01-02T00:00Z (an int start that small would be a time of day)
+        d0 = rng.choice([date(1969, 6, 2), date(1965, 3, 1), date(1970, 1, 2), date(1969, 12, 31)])
+        if r["days"]:
+            wds = {e[0] for e in r["days"]}
+            while d0.weekday() not in wds or d0 in (date(1970, 1, 1), date(1969, 12, 29)):
+                d0 -= timedelta(days=1)
+        r["anchor"][:3] = [d0.year, d0.month, d0.day]
+        r["as_int"] = False
     return r
 
 
@@ -840,15 +848,15 @@ class FilesFamily(IcalFamily):
     shard = 40
     n_quick, n_thorough = 320, 4000
     dom_funcs = {"OPENEND": "no_open_end", "ALLDAYUTC": "no_unaligned_allday", "FIXEDTZ": "no_fixed_offset",
-                 "EARLYANCHOR": "no_early_anchor", "ALLDAYPAT": "no_inexpressible_allday"}
+                 "ALLDAYPAT": "no_inexpressible_allday"}
     rule = ("timelines of 1-4 items: static ICalEvents / plain Intervals (timed from 10 zones, zero-length, pre-1970, "
             "all-day single / multi-day; summary / description / uid / location absent, empty, with commas, "
             "semicolons, backslashes, newlines, non-ASCII, > 75 octets) and recurring patterns (rules as in C07, "
             "day=/week= spellings, exdates from real starts, all-day whole-day patterns, WKST / BYWEEKNO / ... carried "
             "along, metadata passed as None); written with timeline_to_file to /tmp, VEVENTs read from the file text, "
             "reloaded with file_to_timeline; 2-3 windows per timeline; 6% of the timelines hold an item of a recorded "
-            "finding's sub-domain (open end, all-day at local midnights, fixed-offset tzinfo, anchor <= 1970-01-02, "
-            "all-day pattern not expressible as DATE); non-trivial = some slice holds an event")
+            "finding's sub-domain (open end, all-day at local midnights, fixed-offset tzinfo, all-day pattern not "
+            "expressible as DATE); non-trivial = some slice holds an event")
 
     def gen(self, rng, tier, n):
         for _ in range(n):
@@ -879,7 +887,8 @@ class FilesFamily(IcalFamily):
                     t0 = item_first_ts(it) or 0
             a = t0 + rng.choice([0, -1, 1, -3600, -DAY, rng.randrange(-2 * DAY, DAY)])
             ln = rng.choice([3600, DAY, 3 * DAY, 10 * per, rng.randrange(1, 25 * per)])
-            wins.append([a, a + ln])
+            a = min(a, HI_TS)
+            wins.append([a, min(a + ln, HI_TS + 400 * DAY)])      # the zone tables end in 2062
         case = dict(items=items, wins=wins)
         # exdates from real starts inside the first window
         for p in pats:
@@ -1128,6 +1137,8 @@ def gen_vevent_text(rng):
                     d0 += timedelta(days=1)
             r["anchor"][:3] = [d0.year, d0.month, d0.day]
     y, m, d, hh, mm, ss = r["anchor"]
+    if not PR.fires_within(r, date(y, m, d)):
+        return gen_vevent_text(rng)         # a rule that never fires from this DTSTART: dateutil would spin
     if kind == "tz" and r["tz"] == "UTC":
         kind = "utc"
     if kind == "utc" or kind == "float":
@@ -1185,6 +1196,7 @@ class LoadFamily(IcalFamily):
     corr = "corr_load"
     oracle = "oracle_load"
     n_quick, n_thorough = 360, 4500
+    dom_funcs = {"PREDTSTART": "no_pre_dtstart"}
     rule = ("VEVENT texts: 70% generated (DTSTART as TZID / UTC / DATE / floating, synchronised with the rule; DTEND / "
             "DURATION / neither; RRULE with FREQ, INTERVAL, BYDAY incl. ordinals, BYMONTHDAY, BYMONTH, BYSETPOS in any "
             "order; EXDATE lines / lists taken from real instances; folded lines, escaped texts), 30% written by "
@@ -1239,6 +1251,10 @@ class LoadFamily(IcalFamily):
                 # duration read on the clock vs elapsed: outside the property when they differ
                 if any(reference(v, txt, a, b) != reference(v, txt, a, b, exact=True) for a, b in wins):
                     continue
+                if wins and v["rrule"] and EXOTIC and rng.random() < 0.04:
+                    # KF-PREDTSTART: a window before DTSTART
+                    per = PERIOD_S[r["freq"]] * r["interval"]
+                    wins[0] = [t0 - 3 * per, t0 - per]
                 case = dict(origin="text", vevent=v, order=order, wins=wins)
             if not case["wins"]:
                 continue
@@ -1360,6 +1376,8 @@ ASSUME = [
     "COUNT / UNTIL (silently ignored by _parse_vevent) and occurrences whose DTEND/DURATION-derived duration differs from the "
     "elapsed one (spanning a UTC-offset change; RFC 5545 3.8.5.3 asks for the exact duration with DTEND) are outside the "
     "property's quantifier and not generated",
+    "WEEKLY rules with BYSETPOS: windows start 8 days after DTSTART (dateutil, the reference, numbers the positions of "
+    "DTSTART's own week among the days from DTSTART on; recorded in Harness/RecurChk.v oracle_rrule)",
     "rule parts outside the property's list (WKST, BYWEEKNO, BYYEARDAY, BYHOUR, BYMINUTE, BYSECOND) are checked for the text "
     "and for being carried through files and re-creation, not for their occurrences",
 ]
